@@ -88,10 +88,27 @@ func (w *World) Hashes(lo, hi int) []util.Hash {
 
 func (w *World) Str(prefix string) string { return fmt.Sprintf("%s%x", prefix, w.R.Bytes(1+w.R.Intn(8))) }
 
-func (w *World) Height() base.Height { return base.Height(w.R.Range(2, 5000)) }
+// Height: the genesis height 0 (the boundary every height codec must keep apart from "missing") one time in five.
+func (w *World) Height() base.Height {
+	if w.R.Chance(1, 5) {
+		return base.GenesisHeight
+	}
+	return base.Height(w.R.Range(1, 5000))
+}
+
+// HeightPos: a height >= 2 (objects carrying expels need start > genesis and start <= height).
+func (w *World) HeightPos() base.Height { return base.Height(w.R.Range(2, 5000)) }
 
 func (w *World) Point() base.Point {
-	return base.NewPoint(w.Height(), base.Round(w.R.Intn(4)))
+	h := w.Height()
+	if h == base.GenesisHeight {
+		return base.GenesisPoint // Point.IsValid: the genesis height has round 0 only
+	}
+	return base.NewPoint(h, base.Round(w.R.Intn(4)))
+}
+
+func (w *World) PointPos() base.Point {
+	return base.NewPoint(w.HeightPos(), base.Round(w.R.Intn(4)))
 }
 
 func (w *World) Time() time.Time {
@@ -278,7 +295,7 @@ func (w *World) INITBallotOnAccept(empty bool, withExpels bool) isaac.INITBallot
 
 // INITBallotNextRound: INIT ballot of round r+1 carrying a draw INIT (or draw ACCEPT) voteproof of round r.
 func (w *World) INITBallotNextRound(acceptDraw bool) isaac.INITBallot {
-	prev := w.Point()
+	prev := w.PointPos()
 	var vp base.Voteproof
 	if acceptDraw {
 		vp = w.ACCEPTVoteproofDraw(prev)
@@ -291,7 +308,7 @@ func (w *World) INITBallotNextRound(acceptDraw bool) isaac.INITBallot {
 
 // SuffrageConfirmBallot: INIT ballot with a suffrage-confirm fact over a majority INIT expel voteproof.
 func (w *World) SuffrageConfirmBallot() isaac.INITBallot {
-	point := w.Point()
+	point := w.PointPos()
 	vp, ifact, _ := w.INITExpelVoteproof(point, 1+w.R.Intn(2))
 	fact := isaac.NewSuffrageConfirmBallotFact(point, ifact.PreviousBlock(), ifact.Proposal(), ifact.ExpelFacts())
 	n := w.Locals[0]
@@ -303,6 +320,9 @@ func (w *World) SuffrageConfirmBallot() isaac.INITBallot {
 // ACCEPTBallot kinds: 0 plain, 1 empty-operations, 2 not-processed, 3 with expels (over an INIT expel voteproof)
 func (w *World) ACCEPTBallot(kind int) isaac.ACCEPTBallot {
 	point := w.Point()
+	if kind == 3 {
+		point = w.PointPos()
+	}
 	switch kind {
 	case 3:
 		ivp, ifact, ops := w.INITExpelVoteproof(point, 1+w.R.Intn(2))
@@ -335,7 +355,12 @@ func (w *World) ProposalFact() isaac.ProposalFact {
 	for i := range ops {
 		ops[i] = [2]util.Hash{w.Hash(), w.Hash()}
 	}
-	return isaac.NewProposalFact(w.Point(), w.Locals[0].Address(), w.Hash(), ops)
+	point := w.Point()
+	var prev util.Hash
+	if point.Height() != base.GenesisHeight { // IsValidProposalFact: the genesis proposal has no previous block
+		prev = w.Hash()
+	}
+	return isaac.NewProposalFact(point, w.Locals[0].Address(), prev, ops)
 }
 
 func (w *World) ProposalSignFact() isaac.ProposalSignFact {
